@@ -716,7 +716,7 @@ def run(tier):
                        else next(e for e in t17 if e["op"] == op and (e["k"], e["m"]) == ((2, 3) if op == "ecdh" else (0, 0))))
         rep.sample({k: v for k, v in next(e for e in oevs if e["op"] == "eqinf" and e["zero"] == 0).items() if not k.startswith("_")}, limit=8)
         rep.sample({k: v for k, v in next(e for e in oevs if e["op"] == "verdict").items() if not k.startswith("_")}, limit=8)
-    rep.cov["exhaustive"] = True
+    rep.cov["exhaustive"] = thorough
     rep.cov["explanation"] = ("group axioms / Mul / ECDH / ValidPub exhausted by TLC on each tiny curve; the library driven on every pair of "
                               "group elements (incl. infinity, equal, inverse) x Jacobian representatives (all (l1, l2) in the thorough tier "
                               "for p <= 17) and on every (x, y) in (0..p+1)^2 as a public key; shipped curves sampled against OpenSSL")
